@@ -29,6 +29,80 @@ def _seed_files(globs):
     return out
 
 
+def _c_unescape(lit):
+    out = bytearray()
+    i = 0
+    while i < len(lit):
+        c = lit[i]
+        if c != "\\":
+            out += c.encode("latin-1", "replace")
+            i += 1
+            continue
+        i += 1
+        if i >= len(lit):
+            break
+        c = lit[i]
+        if c == "x":
+            j = i + 1
+            while j < len(lit) and j < i + 3 and lit[j] in "0123456789abcdefABCDEF":
+                j += 1
+            if j > i + 1:
+                out.append(int(lit[i + 1:j], 16))
+            i = j
+            continue
+        out += {"n": b"\n", "t": b"\t", "r": b"\r", "0": b"\0", "\\": b"\\", '"': b'"', "'": b"'"}.get(c, c.encode("latin-1", "replace"))
+        i += 1
+    return bytes(out)
+
+
+def gen_rule_seeds(sdir):
+    """Rule texts extracted from the repository's own tests and documentation."""
+    texts = []
+    for cfile in ("tests/test-rules.c", "tests/test-api.c", "tests/test-math.c", "tests/test-string.c", "tests/test-pe.c"):
+        path = os.path.join(ybuild.REPO, cfile)
+        if not os.path.exists(path):
+            continue
+        src = open(path, encoding="latin-1").read()
+        # runs of adjacent C string literals
+        for m in re.finditer(r'(?:"(?:[^"\\\n]|\\.)*"\s*)+', src):
+            parts = re.findall(r'"((?:[^"\\\n]|\\.)*)"', m.group(0))
+            t = _c_unescape("".join(parts))
+            if b"rule" in t and b"condition" in t and len(t) < 6000:
+                texts.append(t)
+    for rst in glob.glob(os.path.join(ybuild.REPO, "docs", "*.rst")) + glob.glob(os.path.join(ybuild.REPO, "docs", "modules", "*.rst")):
+        lines = open(rst, encoding="utf-8", errors="replace").read().split("\n")
+        i = 0
+        while i < len(lines):
+            if lines[i].strip().startswith(".. code-block:: yara"):
+                i += 1
+                blk = []
+                while i < len(lines) and (lines[i].startswith("    ") or not lines[i].strip()):
+                    blk.append(lines[i][4:])
+                    i += 1
+                t = "\n".join(blk).strip().encode()
+                if b"rule" in t and len(t) < 6000:
+                    texts.append(t)
+            else:
+                i += 1
+    for f in glob.glob(os.path.join(ybuild.REPO, "tests", "oss-fuzz", "rules_fuzzer_corpus", "*")):
+        texts.append(open(f, "rb").read()[:6000])
+    seen = set()
+    n = 0
+    for t in texts:
+        h = hashlib.sha1(t).hexdigest()
+        if h in seen:
+            continue
+        seen.add(h)
+        # first byte = harness options (externals defined, includes served)
+        with open(os.path.join(sdir, "r%04d" % n), "wb") as f:
+            f.write(bytes([0x18 | (n % 4)]) + t)
+        n += 1
+    return n
+
+
+SEED_GENERATORS = {"rules": gen_rule_seeds}
+
+
 def _fuzz_env(P, target, work, known_path, leaks=True):
     env = san_env(leaks)
     # libFuzzer must see sanitizer failures as crashes of the unit, not exit codes
@@ -106,6 +180,8 @@ def run_fuzz(pid, tier, seed, replay=None):
                 os.makedirs(d)
             for i, f in enumerate(_seed_files(t.get("seeds", []))):
                 shutil.copyfile(f, os.path.join(sdir, "%04d-%s" % (i, os.path.basename(f)[:40])))
+            if t.get("seed_gen"):
+                SEED_GENERATORS[t["seed_gen"]](sdir)
             env["VERIF_SEED_DIR"] = sdir
             cmd = [exe, "-fork=%d" % forks, "-max_total_time=%d" % budget, "-seed=%d" % (seed * 101 + ti + 1),
                    "-timeout=%d" % t.get("timeout", 25), "-rss_limit_mb=3500", "-max_len=%d" % t.get("max_len", 65536),
